@@ -814,6 +814,44 @@ pub fn verif_encode_field(
     res
 }
 
+/// Runs the real `Chunk::encode` on a single formatter chunk built on the stack, without a
+/// width spec: `kind` selects the formatter (0 level, 1 message, 2 module, 3 file, 4 line,
+/// 5 target, 6 newline, 7 thread, 8 system thread id, 9 an empty `{h()}` highlight group,
+/// 10 an empty `{D()}` group, 11 an empty `{R()}` group).
+#[cfg(log4rs_verif)]
+#[doc(hidden)]
+pub fn verif_encode_formatter(
+    w: &mut dyn encode::Write,
+    record: &Record,
+    kind: u8,
+) -> io::Result<()> {
+    let chunk = Chunk::Formatted {
+        chunk: match kind {
+            0 => FormattedChunk::Level,
+            1 => FormattedChunk::Message,
+            2 => FormattedChunk::Module,
+            3 => FormattedChunk::File,
+            4 => FormattedChunk::Line,
+            5 => FormattedChunk::Target,
+            6 => FormattedChunk::Newline,
+            7 => FormattedChunk::Thread,
+            8 => FormattedChunk::SystemThreadId,
+            9 => FormattedChunk::Highlight(Vec::new()),
+            10 => FormattedChunk::Debug(Vec::new()),
+            _ => FormattedChunk::Release(Vec::new()),
+        },
+        params: Parameters {
+            fill: ' ',
+            align: Alignment::Left,
+            min_width: None,
+            max_width: None,
+        },
+    };
+    let res = chunk.encode(w, record);
+    std::mem::forget(chunk);
+    res
+}
+
 /// A deserializer for the `PatternEncoder`.
 ///
 /// # Configuration
